@@ -181,10 +181,14 @@ Definition mismatches (cs : list case) : list (nat * nat) := mism_from 0 cs.
    and compared with the composed twin Model/SelectPlans.v by Corr/C03Stmt.v (codes there).
    The case files define their list with the type [xcase]; the cases above are embedded. *)
 From KV Require Import Corr.C03Stmt.
+(* CaseT: one SELECT statement FROM THE QUERY TEXT through NewOptimizer(q).BuildPlan(store), compared
+   with Model/PipelineS.v evaluated on the same text by Corr/C03Text.v (codes there). *)
+From KV Require Import Corr.C03Text.
 
 Inductive xcase :=
   | XBase (c : case)
-  | CaseQ (q : qcase).
+  | CaseQ (q : qcase)
+  | CaseT (t : pscase).
 (* the embedded constructors, under which the case files see CaseE / CaseS / CaseL *)
 Definition XCaseE (e : expr) (rows : list (bytes * bytes * obs)) (b : bobs) : xcase := XBase (CaseE e rows b).
 Definition XCaseS (smodel : bool) (wh : expr) (fields : option (list expr)) (B : nat)
@@ -198,6 +202,7 @@ Definition xcheck_case (c : xcase) : nat :=
   match c with
   | XBase b => check_case b
   | CaseQ q => check_q q
+  | CaseT t => check_ps t
   end.
 
 Fixpoint xmism_from (i : nat) (cs : list xcase) : list (nat * nat) :=
